@@ -38,8 +38,21 @@ EDITS = {
     "takagi-sugeno-sum": "e.output_variable('O').term('b').value = q",
     "multi-conclusion-hedged": "e.output_variable('P').term('b').top = q",
     "function-input": "e.output_variable('O').term('a').top = q",
+    "first-activation": "e.output_variable('O').term('a').top = q",
+    "last-activation": "e.output_variable('O').term('a').top = q",
 }
 ENGINES = list(EDITS)
+
+
+def extra_engines(E):
+    """engines of this check only: activation methods that decide rule by rule and keep no state between activations (they reject
+    batches, so the sequences with batch steps are left out for them)"""
+    import copy
+    for name, act in (("first-activation", ("First", 1, 0.0)), ("last-activation", ("Last", 1, 0.25))):
+        sp = copy.deepcopy(E["mamdani-centroid"])
+        sp["blocks"][0]["activation"] = act
+        E[name] = sp
+    return E
 
 SEQS = {
     "twice": ["P0", "P0"],
@@ -343,7 +356,7 @@ def ob_sequence(ename, spec, sname, seq, label):
 
 def obligations(tier, seed):
     obs = []
-    E = engines()
+    E = extra_engines(engines())
     seqs = dict(SEQS)
     if tier != "quick":
         import itertools
@@ -358,6 +371,8 @@ def obligations(tier, seed):
         for sname, seq in seqs.items():
             if sname == "toggle-variable" and ename == "two-blocks-output-antecedent":
                 pass
+            if ename.endswith("-activation") and (sname not in ("no-trace", "restart", "copy-then-both", "process-again") or (tier == "quick" and ename != "first-activation")):
+                continue      # (these methods fork on every comparison of a degree: a few sequence shapes; they reject batches)
             nm = f"{ename}/{sname}"
             obs.append((nm, ob_sequence(ename, E[ename], sname, seq, nm)))
     return obs
